@@ -34,7 +34,7 @@ META = {
         "a required parameter without any value may raise TypeError (not judged)",
     ],
     "must_observe": ["decided_bind", "reserved_checked", "forwarded_checked", "pair_checked", "i2_contract_evaluations"],
-    "shard_timeout": {"quick": 300, "thorough": 3400},
+    "shard_timeout": {"quick": 900, "thorough": 3400},
 }
 
 BUILTINS = ["event_data", "machine", "event", "model", "transition", "state", "source", "target"]
